@@ -323,6 +323,39 @@ def hook_exit(rec, F):
             rec.finding(R, "F4.hook-exit/to_call_result", "to_call_result turns ExecutionResult::Exit into internal_error: exit(n) inside a callback run by a native (iter.each, map, reduce, ...) is a host panic instead of ending the program with status n", loc=fn.loc, fn=fn.path)
 
 
+def callback_exit(rec, F):
+    """A native handed to a native as the callback ([3].iter().each(exit)) runs inside resolve_call itself: the
+    signal that comes back can be Exit."""
+    R = rec.rule("F4.hook-exit", "an exit() reached while native code is calling back into Laythe is propagated as LyError::Exit, like call_native does, not turned into an internal error")
+    from .f5_trace import arm_region
+    # the callee of Vm::runtime_error is a built-in error class whose initialiser is a native that cannot exit
+    EXEMPT = {"runtime_error": "constructs a built-in error class (native initialiser, never signals Exit)"}
+    n = 0
+    for fn in F.all_fns():
+        if "<impl laythe_vm::vm::Vm>" not in fn.path or fn.kind == "Closure" or "::test" in fn.path:
+            continue
+        for bi, t in fn.calls():
+            if lastseg(t["f"]) != "resolve_call" or t["to"] < 0:
+                continue
+            sv = sem.switch_variants(F, fn, t["to"])
+            if not sv or not sv[0].endswith("ExecutionSignal"):
+                continue
+            sw = fn.blocks[t["to"]]["t"]
+            listed = {sv[1].get(v): dst for v, dst in sw["targets"]}
+            dst = listed.get("Exit", sw["otherwise"])
+            reg = arm_region(fn, t["to"], dst) | {dst}
+            panics = [tt for b2, tt in fn.calls() if b2 in reg and lastseg(tt["f"]) == "internal_error"]
+            if fn.name in EXEMPT:
+                rec.inst(R, "%s: signal of resolve_call" % fn.name, ok=True, loc=fn.loc, note="exempt: " + EXEMPT[fn.name])
+                continue
+            n += 1
+            ok = not panics
+            rec.inst(R, "%s: Exit from resolve_call is propagated" % fn.name, ok=ok, loc=loc_of(t["sp"]))
+            if not ok:
+                rec.finding(R, "F4.hook-exit/%s" % fn.name, "Vm::%s sends an Exit signal that comes straight back from resolve_call (the callback is itself a native: `[3].iter().each(exit)`) to internal_error: exit(n) becomes a host panic instead of ending the program with status n" % fn.name, loc=loc_of(t["sp"]), fn=fn.path)
+    rec.floor(R, "signal dispatches after resolve_call in hooks", n, 2)
+
+
 def ip_minus_one(rec, F):
     R = rec.rule("F10.line", "both ip->line translations (print_error traceback, error_backtrace) subtract one from the return-address offset before get_line")
     n = 0
@@ -911,6 +944,7 @@ def run_c17(rec, F):
 def run_c18(rec, F):
     status_mapping(rec, F)
     hook_exit(rec, F)
+    callback_exit(rec, F)
     ip_minus_one(rec, F)
     backtrace_window(rec, F)
     stub_pool_release(rec, F)
